@@ -133,6 +133,22 @@ Example C20_shared_decoder_refuted :
     /\ outputs_of 0 (run private fl no_decoders steps) = [filter_fields dA (fst (fl 0)) (snd (fl 0))].
 Proof. exact shared_decoder_refuted. Qed.
 
+(* pool exclusivity: the filter is released once on every path out of doFetch (deferred), so for any
+   schedule of request starts and ends, any exit paths and any choice of Get, the objects held by
+   requests and those in the pool are pairwise distinct: two requests in flight never work on the
+   same filter (which is what `private` above assumes) *)
+Theorem C20_pool_exclusive : forall evs,
+  NoDup (map snd (pheld (prun releases_code evs)) ++ ppool (prun releases_code evs)).
+Proof. exact pool_exclusive. Qed.
+Print Assumptions C20_pool_exclusive.
+
+(* refuted variant: explicit releases with the cancelled-send path releasing before `break` and again
+   after the loop: two later requests hold the same object *)
+Example C20_pool_double_release_refuted :
+  exists evs r1 r2 o, r1 <> r2 /\
+    In (r1, o) (pheld (prun releases_dbl evs)) /\ In (r2, o) (pheld (prun releases_dbl evs)).
+Proof. exact pool_double_release_refuted. Qed.
+
 (* the block list as it was before /repo c998f0f (Dig + Suicide per listed name): correct for
    pairwise distinct keys ... *)
 Theorem C20_except_v0_distinct_keys :
@@ -194,3 +210,11 @@ Example C20_nonvacuous_name_set :
   /\ same_names [0; 1] [1; 1] = false
   /\ filter_fields [(0, 10); (1, 11)] [0; 1] true <> filter_fields [(0, 10); (1, 11)] [1; 1] true.
 Proof. split; [reflexivity|]. split; [reflexivity|]. vm_compute. discriminate. Qed.
+
+(* names are ids standing for ARBITRARY byte strings: no bound on their length is assumed anywhere
+   (theorems quantify over all key ids; the run includes names of 0, 1, 62..65, 127, 128, 255, 300+
+   bytes). The same statement for a key id beyond the ids the run uses: *)
+Example C20_no_length_bound :
+  filter_fields [(4000, 1); (2, 2)] [4000] true = Ok [(4000, 1)]
+  /\ filter_fields [(4000, 1); (2, 2)] [4000] false = Ok [(2, 2)].
+Proof. split; vm_compute; reflexivity. Qed.
